@@ -29,6 +29,8 @@ def pipeline(run):
     scen = os.path.join(run.scratch, "rscen.ndjson")
     if run.replay:
         scen = os.path.join(run.replay, "scen-run.ndjson")
+        if not os.path.exists(scen):
+            return {}, None
     else:
         run.model_check("Run", MC_CFG % (4 if run.tier == "quick" else 5), workers=16, timeout=1800)
         cfg = ("INIT Init\nNEXT Next\nCONSTANTS\n  ScenOut = \"%s\"\n  HistLen = %d\n  Variants = %s\n  ArgLen = %d\n  WithPlace = %s\n  WithArgv = %s\n  BadKinds = %s\n  LayoutSet = %s\n  TagSet = %s\nCHECK_DEADLOCK FALSE\n"
